@@ -296,7 +296,8 @@ def _run_hyp(sub, tier, seed_value, nshards, rec, handle):
 
     _engine.MAX_SHRINKING_SECONDS = int(os.environ.get("VERIF_SHRINK_SECONDS", "25" if tier == "quick" else "120"))
 
-    total = sub.budget[tier]
+    # VERIF_BUDGET_SCALE is for tools/mutate.py's screening runs only (no registered command sets it)
+    total = max(nshards, int(sub.budget[tier] * float(os.environ.get("VERIF_BUDGET_SCALE", "1"))))
     n = max(1, -(-total // nshards))
     phases = [Phase.generate] + ([Phase.shrink] if sub.shrink else [])
 
